@@ -64,6 +64,31 @@ def instructions(code):
             for i in dis.get_instructions(code, show_caches=False)]
 
 
+def _tested_by(code):
+    """{offset of a conditional jump: what produced the tested value} e.g. ``COMPARE_OP<``, ``CONTAINS_OP``,
+    ``IS_OP``, ``CHECK_EXC_MATCH``, ``value`` (anything else: truthiness of a value)."""
+    out = {}
+    prev = None
+    for i in dis.get_instructions(code, show_caches=False):
+        if i.opname in COND_JUMPS:
+            if i.opname == "FOR_ITER":
+                out[i.offset] = "iterator"
+            elif i.opname in ("POP_JUMP_IF_NONE", "POP_JUMP_IF_NOT_NONE"):
+                out[i.offset] = "none-test"
+            elif prev is not None and prev.opname == "COMPARE_OP":
+                out[i.offset] = "COMPARE_OP" + str(prev.argrepr)
+            elif prev is not None and prev.opname == "CONTAINS_OP":
+                out[i.offset] = "CONTAINS_OP" + ("-not" if prev.arg else "")
+            elif prev is not None and prev.opname == "IS_OP":
+                out[i.offset] = "IS_OP" + ("-not" if prev.arg else "")
+            elif prev is not None and prev.opname == "CHECK_EXC_MATCH":
+                out[i.offset] = "CHECK_EXC_MATCH"
+            else:
+                out[i.offset] = "value"
+        prev = i
+    return out
+
+
 def line_ops(code):
     """{line: [opname, ...]} in offset order (instructions without a line are left out)."""
     out: dict = {}
@@ -105,15 +130,16 @@ def _reachable_offsets(code, ins):
 
 def jumps_of(code):
     """Conditional jumps of one code object, offset order:
-    [{"offset", "op", "line", "fall", "target", "reachable", "rank"}]."""
+    [{"offset", "op", "line", "fall", "target", "reachable", "rank", "tests"}]."""
     ins = instructions(code)
     reach = _reachable_offsets(code, ins)
+    tested = _tested_by(code)
     out = []
     for n, (off, op, line, arg) in enumerate(ins):
         if op in COND_JUMPS:
             fall = ins[n + 1][0] if n + 1 < len(ins) else None
             out.append({"offset": off, "op": op, "line": line, "fall": fall, "target": arg,
-                        "reachable": off in reach, "rank": len(out)})
+                        "reachable": off in reach, "rank": len(out), "tests": tested.get(off, "value")})
         elif op in ("SEND",) or (op.startswith(("POP_JUMP", "JUMP_IF")) and op not in COND_JUMPS):
             raise GroundTruthError(f"conditional jump {op} outside the oracle's table in {code.co_qualname}")
     return out
